@@ -724,6 +724,55 @@ struct Ctx<'a> {
     crt: Option<tokio::runtime::Handle>,
 }
 
+/// soft RLIMIT_NOFILE := min(hard, 65536), if it is lower (as harness/src/bin/c18.rs does)
+fn raise_fd_limit() {
+    #[repr(C)]
+    struct Rlimit {
+        cur: u64,
+        max: u64,
+    }
+    extern "C" {
+        fn getrlimit(resource: i32, rlim: *mut Rlimit) -> i32;
+        fn setrlimit(resource: i32, rlim: *const Rlimit) -> i32;
+    }
+    let mut r = Rlimit { cur: 0, max: 0 };
+    if unsafe { getrlimit(7, &mut r) } == 0 {
+        let want = r.max.min(65536);
+        if r.cur < want {
+            let n = Rlimit { cur: want, max: r.max };
+            unsafe { setrlimit(7, &n) };
+        }
+    }
+}
+fn fd_limit() -> usize {
+    #[repr(C)]
+    struct Rlimit {
+        cur: u64,
+        max: u64,
+    }
+    extern "C" {
+        fn getrlimit(resource: i32, rlim: *mut Rlimit) -> i32;
+    }
+    let mut r = Rlimit { cur: 0, max: 0 };
+    if unsafe { getrlimit(7, &mut r) } != 0 {
+        return 1024;
+    }
+    r.cur as usize
+}
+
+/// connect, retrying for up to 30 s (a burst of hundreds of connects may
+/// overflow the listen backlog for a moment)
+fn open_retry(addr: SocketAddr) -> Option<Conn> {
+    let t0 = Instant::now();
+    loop {
+        match Conn::open(addr) {
+            Ok(c) => return Some(c),
+            Err(_) if t0.elapsed() < MID => std::thread::sleep(Duration::from_millis(50)),
+            Err(_) => return None,
+        }
+    }
+}
+
 fn run_client(cx: &Ctx, id: u32, script: &Script) {
     if cx.transport != Transport::H1 {
         cx.crt.as_ref().expect("client runtime").block_on(run_client_async(cx, id, script));
@@ -762,9 +811,9 @@ fn run_client(cx: &Ctx, id: u32, script: &Script) {
         }
         return;
     }
-    let mut c = match Conn::open(cx.addr) {
-        Ok(c) => c,
-        Err(_) => {
+    let mut c = match open_retry(cx.addr) {
+        Some(c) => c,
+        None => {
             note("connect-failed");
             cx.ready.fetch_add(1, Ordering::SeqCst);
             return;
@@ -1061,6 +1110,24 @@ fn line_for(sc: &Scenario, out: &Outcome, group: &'static str) -> Line {
             tags.push(format!("probe:{}", ["refused", "foreign-listener", "server-listener-still-open"][*r as usize % 3]));
         }
     }
+    if sc.conns.len() >= 60 {
+        let idle = sc.conns.iter().filter(|(_, s)| matches!(s, Script::IdleKeepAlive | Script::IdleFresh)).count();
+        let left = sc.conns.iter().filter(|(_, s)| matches!(s, Script::InFlight { leave, .. } if *leave != Leave::Stay)).count();
+        let infl = sc.conns.iter().filter(|(_, s)| matches!(s, Script::InFlight { .. })).count();
+        if idle >= 60 {
+            tags.push(format!("crowd-idle:{}:{}", tr_s(sc.transport), idle));
+        } else {
+            tags.push(format!("crowd-in-flight:{}:{}", tr_s(sc.transport), infl));
+            tags.push(format!(
+                "crowd-leaving:{}",
+                if left == 0 { "none" } else if left == 1 { "one" } else if left == infl { "all" }
+                else if left == infl - 1 { "all-but-one" } else { "some" }
+            ));
+            let entered = t.iter().filter(|e| matches!(e, Ev::Entered(_))).count();
+            let before = match close { Some(cl) => t[..cl].iter().filter(|e| matches!(e, Ev::Entered(_))).count(), None => 0 };
+            tags.push(format!("crowd-entered-before-close:{}", if before >= infl { "all".to_string() } else { format!("{}-of-{}({} entered)", before, infl, entered) }));
+        }
+    }
     for n in &out.notes {
         tags.push(format!("note:{}", n));
     }
@@ -1175,6 +1242,89 @@ fn mixed(rng: &mut Rng, detached: bool, k: usize, transport: Transport) -> Scena
     }
 }
 
+/// A crowd in flight at shutdown: k connections, each with its handler entered
+/// before close(); the first `leave` clients go (alternately before close()
+/// and during shutdown), the rest stay.  `idle`: instead, k idle keep-alive
+/// connections and one request in flight.
+fn crowd(detached: bool, k: usize, leave: usize, idle: bool, transport: Transport, via_drop: bool) -> Scenario {
+    let mut conns = vec![];
+    for i in 0..k {
+        let s = if idle {
+            Script::IdleKeepAlive
+        } else if i < leave {
+            Script::InFlight {
+                big: false,
+                leave: if i % 2 == 0 { Leave::BeforeClose } else { Leave::AfterClose },
+                nocx: i % 3 == 0,
+            }
+        } else {
+            Script::InFlight { big: false, leave: Leave::Stay, nocx: i % 5 == 0 }
+        };
+        conns.push((i as u32 + 1, s));
+    }
+    if idle {
+        conns.push((k as u32 + 1, Script::InFlight { big: false, leave: Leave::Stay, nocx: false }));
+    }
+    Scenario { transport, detached, conns, waiters: 2, hold_ms: 300, via_drop }
+}
+
+fn crowds(opts: &Opts) -> Vec<Scenario> {
+    let mut v = vec![];
+    let leave_of = |k: usize, j: usize| [1, k / 2, k - 1, k][j % 4];
+    for (m, detached) in [false, true].into_iter().enumerate() {
+        let sizes: &[usize] =
+            if opts.thorough { &[63, 64, 65, 127, 128, 129, 257, 513, 1025] } else { &[63, 64, 65, 127, 128, 129, 257] };
+        for (i, &k) in sizes.iter().enumerate() {
+            if opts.thorough && k <= 257 {
+                for j in 0..4 {
+                    v.push(crowd(detached, k, leave_of(k, j), false, Transport::H1, j == 3));
+                }
+            } else {
+                v.push(crowd(detached, k, leave_of(k, i + m), false, Transport::H1, (i + m) % 5 == 0));
+            }
+        }
+        for &k in &[65usize, 129, 257] {
+            v.push(crowd(detached, k, 0, true, Transport::H1, false));
+        }
+        // connections speaking HTTP/2 (one request each) and TLS
+        v.push(crowd(detached, 65, 32, false, Transport::H2, false));
+        v.push(crowd(detached, 129, 128, false, Transport::H2, false));
+        v.push(crowd(detached, 65, 1, false, Transport::Tls, false));
+        if opts.thorough {
+            v.push(crowd(detached, 257, 128, false, Transport::H2, false));
+            v.push(crowd(detached, 129, 64, false, Transport::Tls, false));
+            v.push(crowd(detached, 129, 0, true, Transport::H2, false));
+        }
+    }
+    v
+}
+
+/// spread the crowd scenarios evenly through the list (the driver evaluates
+/// contiguous slices of it in parallel)
+fn interleave(
+    normal: Vec<(&'static str, Scenario)>,
+    crowd: Vec<Scenario>,
+) -> Vec<(&'static str, Scenario)> {
+    if crowd.is_empty() {
+        return normal;
+    }
+    let step = (normal.len() / crowd.len()).max(1);
+    let mut out = vec![];
+    let mut c = crowd.into_iter();
+    for (i, x) in normal.into_iter().enumerate() {
+        if i % step == 0 {
+            if let Some(s) = c.next() {
+                out.push(("crowd", s));
+            }
+        }
+        out.push(x);
+    }
+    for s in c {
+        out.push(("crowd", s));
+    }
+    out
+}
+
 fn generate(opts: &Opts) -> Vec<(&'static str, Scenario)> {
     let mut rng = Rng::new(opts.seed ^ 0xC17);
     let mut v: Vec<(&'static str, Scenario)> = vec![];
@@ -1227,17 +1377,34 @@ fn generate(opts: &Opts) -> Vec<(&'static str, Scenario)> {
             }
         }
     }
-    v
+    interleave(v, crowds(opts))
 }
 
 fn run_all(list: Vec<(&'static str, Scenario)>, par: usize, out: &mut dyn Write) {
     let n = list.len();
-    let next = AtomicUsize::new(0);
     let results: Mutex<Vec<Option<Outcome>>> = Mutex::new((0..n).map(|_| None).collect());
     // the long scenarios (shutdown held open for seconds) each get a thread of
-    // their own, started first, so that they overlap with everything else
+    // their own, started first, so that they overlap with everything else; the
+    // big ones (60 connections and more) go through a pool of their own; one
+    // that would need more file descriptors than the process may have is
+    // skipped (and says so)
+    const BIG_PAR: usize = 3;
+    let limit = fd_limit();
     let is_long = |i: usize| list[i].1.hold_ms >= 3000;
-    let short: Vec<usize> = (0..n).filter(|i| !is_long(*i)).collect();
+    let is_big = |i: usize| !is_long(i) && list[i].1.conns.len() >= 60;
+    let fits = |i: usize| (2 * list[i].1.conns.len() + 64) * BIG_PAR + 256 <= limit;
+    let big: Vec<usize> = (0..n).filter(|i| is_big(*i) && fits(*i)).collect();
+    let short: Vec<usize> = (0..n).filter(|i| !is_long(*i) && !is_big(*i)).collect();
+    let (nb, ns) = (AtomicUsize::new(0), AtomicUsize::new(0));
+    let work = |idx: &Vec<usize>, next: &AtomicUsize| loop {
+        let k = next.fetch_add(1, Ordering::SeqCst);
+        if k >= idx.len() {
+            break;
+        }
+        let o = run_scenario(&list[idx[k]].1);
+        results.lock().unwrap()[idx[k]] = Some(o);
+    };
+    let work = &work;
     std::thread::scope(|scope| {
         for i in (0..n).filter(|i| is_long(*i)) {
             let (list, results) = (&list, &results);
@@ -1246,26 +1413,38 @@ fn run_all(list: Vec<(&'static str, Scenario)>, par: usize, out: &mut dyn Write)
                 results.lock().unwrap()[i] = Some(o);
             });
         }
+        for _ in 0..BIG_PAR.min(big.len()) {
+            scope.spawn(|| work(&big, &nb));
+        }
         for _ in 0..par.min(short.len()).max(1) {
-            scope.spawn(|| loop {
-                let k = next.fetch_add(1, Ordering::SeqCst);
-                if k >= short.len() {
-                    break;
-                }
-                let i = short[k];
-                let o = run_scenario(&list[i].1);
-                results.lock().unwrap()[i] = Some(o);
-            });
+            scope.spawn(|| work(&short, &ns));
         }
     });
     let results = results.into_inner().unwrap();
     for (i, (g, sc)) in list.iter().enumerate() {
-        let o = results[i].as_ref().expect("scenario result");
-        emit(out, &line_for(sc, o, g));
+        match results[i].as_ref() {
+            Some(o) => emit(out, &line_for(sc, o, g)),
+            None => emit(
+                out,
+                &Line {
+                    group: "skipped",
+                    case: sc.to_json(),
+                    obs: json!({"skipped": "RLIMIT_NOFILE too low for this crowd", "limit": limit}),
+                    // an idle server shut down: trivially fine
+                    coq: format!(
+                        "(C17 {} 0 [OCloseCalled; OCloseReturned true; OConnectAfter 0])",
+                        if sc.detached { "Detached" } else { "CancelOnDisconnect" }
+                    ),
+                    tags: vec![format!("skipped:conns:{}:nofile-limit-{}", sc.conns.len(), limit)],
+                    nontrivial: false,
+                },
+            ),
+        }
     }
 }
 
 fn main() {
+    raise_fd_limit();
     dsverif::cli::main(|opts, replay, out| {
         let list: Vec<(&'static str, Scenario)> = match replay {
             Some(cases) => cases
